@@ -18,7 +18,7 @@ RULES = [
     (r"\bbreak\b", "continue"), (r"\+\+", "--"), (r"<<", ">>"), (r"\b0x([0-9a-f]{2})\b", None), (r"\[0\]", "[1]"), (r"\+= ", "-= "),
 ]
 def sh(cmd, cwd=None, timeout=1800):
-    p = subprocess.run(cmd, cwd=cwd, env=ENV, stdout=subprocess.PIPE, stderr=subprocess.STDOUT, text=True, timeout=timeout)
+    p = subprocess.run(cmd, cwd=cwd, env=ENV, stdout=subprocess.PIPE, stderr=subprocess.STDOUT, text=True, errors="replace", timeout=timeout)
     return p.returncode, p.stdout
 def props_of():
     m = {}
